@@ -7,9 +7,9 @@ import (
 
 	rProto "github.com/thomasjungblut/go-sstables/recordio/proto"
 	"github.com/thomasjungblut/go-sstables/skiplist"
-	"google.golang.org/protobuf/proto"
 	"github.com/thomasjungblut/go-sstables/sstables"
 	sproto "github.com/thomasjungblut/go-sstables/sstables/proto"
+	"google.golang.org/protobuf/proto"
 )
 
 func init() {
